@@ -182,3 +182,104 @@ Proof.
   cbn [odesc]; try (apply Same; [exact O|reflexivity|reflexivity]);
   try (apply Ins; reflexivity); try (apply Ne; reflexivity); try congruence; try lia.
 Qed.
+
+(* ---------------------------------------------------------------- one fraction, then every merge tree *)
+
+Definition bins_ok (q : query) (st : aggs) (D : list doc) : Prop :=
+  NoDup (map fst (a_bins st)) /\
+  forall k, odesc (collect_samples q) (lookup k (a_bins st)) (bin_vals q k D) (bin_ne q k D).
+
+Lemma fold_field q ds : is_field_func (q_func q) = true -> forall st P,
+  Forall (fun d => sel q d = true) ds ->
+  bins_ok q st P -> bins_ok q (fold_left (dstep q) ds st) (P ++ ds).
+Proof.
+  intros FF. induction ds as [|d ds IH]; intros st P F [ND O]; simpl.
+  - rewrite app_nil_r. split; assumption.
+  - inversion F as [|? ? Sd F']; subst. replace (P ++ d :: ds) with ((P ++ [d]) ++ ds) by (rewrite <- app_assoc; reflexivity).
+    apply IH; [assumption|]. unfold dstep. rewrite Sd. split.
+    + apply step_nodup. assumption.
+    + intros k. rewrite bin_vals_app, bin_ne_app. apply step_field; [assumption|apply O].
+Qed.
+
+Lemma finish_field q st : is_field_func (q_func q) = true -> finish q st = st.
+Proof. unfold finish. destruct (q_func q); simpl; congruence. Qed.
+
+Lemma frac_direct_field q ds : is_field_func (q_func q) = true ->
+  bins_ok q (frac_direct q ds) (filter (sel q) ds).
+Proof.
+  intros FF. unfold frac_direct. rewrite finish_field by assumption.
+  change (fun st d => if selected (q_from q) (q_to q) d then step q (d_mid d) (d_grp d) (d_fld d) st else st)
+    with (dstep q).
+  rewrite fold_dstep_filter.
+  apply (fold_field q (filter (sel q) ds) FF empty_aggs []).
+  - rewrite Forall_forall. intros d I. apply filter_In in I. tauto.
+  - split; [constructor|]. intros k. simpl. unfold bin_vals, bin_ne, count. simpl.
+    destruct (q_group q), (fst k =? 0)%N, (snd k =? 0)%N; auto.
+Qed.
+
+(* merge trees whose leaves are evaluated by the direct per-document pass *)
+Fixpoint eval_tree_direct (q : query) (t : mtree) : aggs :=
+  match t with
+  | Leaf ds => frac_direct q ds
+  | Node l r => merge_aggs (eval_tree_direct q l) (eval_tree_direct q r)
+  end.
+
+Lemma merge_aggs_bins x y : a_bins (merge_aggs x y) = merge_bins (a_bins x) (a_bins y).
+Proof. reflexivity. Qed.
+
+Lemma agg_exact_field q t : is_field_func (q_func q) = true ->
+  bins_ok q (eval_tree_direct q t) (filter (sel q) (tree_docs t)).
+Proof.
+  intros FF. induction t as [ds|l [NDl Ol] r [NDr Or]]; cbn [eval_tree_direct tree_docs].
+  - apply frac_direct_field. assumption.
+  - unfold bins_ok. rewrite merge_aggs_bins.
+    split; [apply merge_bins_nodup; assumption|].
+    intros k. rewrite merge_bins_lookup by assumption.
+    rewrite filter_app, bin_vals_app, bin_ne_app. apply odesc_merge; [apply Ol|apply Or].
+Qed.
+
+(* ---------------------------------------------------------------- any merge order *)
+
+Lemma filter_perm {A} (p : A -> bool) l l' : Permutation l l' -> Permutation (filter p l) (filter p l').
+Proof.
+  induction 1; simpl; auto.
+  - destruct (p x); auto.
+  - destruct (p x), (p y); auto. apply perm_swap.
+  - eapply Permutation_trans; eauto.
+Qed.
+
+Lemma count_perm {A} (p : A -> bool) l l' : Permutation l l' -> count p l = count p l'.
+Proof. intros P. unfold count. rewrite (Permutation_length (filter_perm p _ _ P)). reflexivity. Qed.
+
+Lemma bin_vals_perm q k l l' : Permutation l l' -> Permutation (bin_vals q k l) (bin_vals q k l').
+Proof.
+  unfold bin_vals. set (f := fun d : doc => _). induction 1; simpl; auto.
+  - apply Permutation_app_head. assumption.
+  - rewrite !app_assoc. apply Permutation_app_tail. apply Permutation_app_comm.
+  - eapply Permutation_trans; eauto.
+Qed.
+
+Lemma bin_ne_perm q k l l' : Permutation l l' -> bin_ne q k l = bin_ne q k l'.
+Proof.
+  intros P. unfold bin_ne. destruct (q_group q).
+  - destruct (fst k =? 0)%N; [apply count_perm; assumption|reflexivity].
+  - destruct (snd k =? 0)%N; [apply count_perm; assumption|reflexivity].
+Qed.
+
+Lemma odesc_perm c o vs vs' ne : Permutation vs vs' -> odesc c o vs ne -> odesc c o vs' ne.
+Proof.
+  intros P. destruct o; simpl; [apply sdesc_perm; assumption|].
+  intros [-> ->]. apply Permutation_nil in P. auto.
+Qed.
+
+Lemma any_merge_order_field q t1 t2 k : is_field_func (q_func q) = true ->
+  Permutation (tree_docs t1) (tree_docs t2) ->
+  let D := filter (sel q) (tree_docs t1) in
+  odesc (collect_samples q) (lookup k (a_bins (eval_tree_direct q t1))) (bin_vals q k D) (bin_ne q k D) /\
+  odesc (collect_samples q) (lookup k (a_bins (eval_tree_direct q t2))) (bin_vals q k D) (bin_ne q k D).
+Proof.
+  intros FF P D. split; [apply (agg_exact_field q t1 FF)|].
+  destruct (agg_exact_field q t2 FF) as [_ O]. specialize (O k).
+  assert (PD : Permutation (filter (sel q) (tree_docs t2)) D) by (apply filter_perm, Permutation_sym; exact P).
+  rewrite (bin_ne_perm q k _ _ PD) in O. eapply odesc_perm; [|exact O]. apply bin_vals_perm. exact PD.
+Qed.
